@@ -498,6 +498,37 @@ theorem upperEsc_canonOpt (U : List UInt8) (hU : (0x25 : UInt8) ∈ U) {o : Opti
     · simp only [canonOpt, hu, Bool.false_eq_true, if_false, strOf_some, requote, Option.getD_some]
       exact ⟨upperEsc_safelyUnquote U hU (h u rfl), upperEsc_safelyUnquote U hU (h u rfl)⟩
 
+/-- `requoteNfkc` writes upper-case escapes (FX-C01-NFKCUSERINFO) -/
+theorem upperEsc_unquoteAuthItem {s : Str} (h : UpperEsc s) : UpperEsc (unquoteAuthItem s) := by
+  intro t ht
+  rw [unquoteAuthItem_eq, tokens_authItem, ← tokens_safelyUnquote _ pct_auth] at ht
+  simp only [nfkcToks, List.mem_flatMap] at ht
+  obtain ⟨t0, h0, ht⟩ := ht
+  have hup := upperEsc_safelyUnquote _ pct_auth h t0 h0
+  cases t0 with
+  | raw c =>
+    simp only [nfkcTok] at ht
+    split at ht
+    · simp only [List.mem_map] at ht
+      obtain ⟨b, _, rfl⟩ := ht
+      exact upTok_escOfByte b
+    · simp only [List.mem_singleton] at ht; subst ht; exact hup
+  | esc h1 h2 => simp only [nfkcTok, List.mem_singleton] at ht; subst ht; exact hup
+  | stray => simp only [nfkcTok, List.mem_singleton] at ht; subst ht; exact hup
+
+theorem upperEsc_canonOpt_auth {o : Option Str} (h : ∀ u, o = some u → UpperEsc u) :
+    UpperEsc (strOf (canonOpt false unquoteAuthItem o)) ∧
+    UpperEsc ((canonOpt false unquoteAuthItem o).getD []) := by
+  cases o with
+  | none => simp [canonOpt, strOf_none, upperEsc_nil]
+  | some u =>
+    by_cases hu : u.isEmpty = true
+    · have : u = [] := by simpa using hu
+      subst this
+      simp [canonOpt, strOf_some, upperEsc_nil]
+    · simp only [canonOpt, hu, Bool.false_eq_true, if_false, strOf_some, requote, Option.getD_some]
+      exact ⟨upperEsc_unquoteAuthItem (h u rfl), upperEsc_unquoteAuthItem (h u rfl)⟩
+
 /-! ## the cleaning pass on a printed URL -/
 
 theorem upperEsc_append_of_sepHead {a b : Str} (ha : UpperEsc a) (hb : UpperEsc b)
@@ -658,7 +689,7 @@ theorem upperEsc_printed_body (hup : UpFacts p) (hpath : PathIdem)
   -- pieces
   have hnl : UpperEsc (canonParts puny false sf p).netloc := by
     rw [canonParts_netloc_eq, canonComps_user, canonComps_pass]
-    exact upperEsc_netloc (upperEsc_canonOpt _ hU hup.user).1 (upperEsc_canonOpt _ hU hup.pass).1
+    exact upperEsc_netloc (upperEsc_canonOpt_auth hup.user).1 (upperEsc_canonOpt_auth hup.pass).1
       (host_no_pct hpc sf h hpct)
   have hpa : UpperEsc (canonParts puny false sf p).path := by
     rw [canonParts_path, canonComps_path_eq hpc false sf h]
